@@ -14,6 +14,7 @@ from pydiverse.common import Bool, Int64
 from pydiverse.transform._internal import errors
 from pydiverse.transform._internal.backend.table_impl import (
     TableImpl,
+    is_hash_join_key,
     split_join_cond,
 )
 from pydiverse.transform._internal.backend.targets import (
@@ -1238,8 +1239,10 @@ def join(
     else:
         on = functools.reduce(operator.and_, on[1:], on[0])
 
-    if how == "full" and not all(pred.op == ops.equal for pred in split_join_cond(on)):
-        raise ValueError("in a `full` join, only equality predicates can be used")
+    if how == "full" and not all(is_hash_join_key(pred, right._cache.cols.keys()) for pred in split_join_cond(on)):
+        raise ValueError(
+            "in a `full` join, only equality predicates between the left and the right table can be used"
+        )
 
     for fn in on.iter_subtree_postorder():
         if isinstance(fn, ColFn) and fn.op.ftype != Ftype.ELEMENT_WISE:
